@@ -466,7 +466,10 @@ func (x *SX) stmt(s ast.Stmt, st *sxState) []outcome {
 							next = append(next, outcome{st: ev.st})
 						}
 					} else {
-						oc.st.env[o] = x.zero(o.Type())
+						// a zero-valued struct local (sync.Mutex, strings.Builder, …) is an object with identity: it stays a variable
+						if _, isStruct := o.Type().Underlying().(*types.Struct); !isStruct {
+							oc.st.env[o] = x.zero(o.Type())
+						}
 						next = append(next, oc)
 					}
 				}
